@@ -426,7 +426,7 @@ func runCase(c Val) Val {
 				break
 			}
 			r := parseWsp(msg)
-			if withSentinel && r.seq == sentinel && r.cseq == sentinel {
+			if withSentinel && r.cseq == sentinel { // recognised by its CSeq alone: a wrong seq must not wedge the run
 				break
 			}
 			if first == nil {
@@ -584,10 +584,12 @@ func runCase(c Val) Val {
 				got = true
 				// every packet published while media flows yields one message: let them all arrive,
 				// so that nothing is in flight when the next request is sent
-				grace := time.Now().Add(60 * time.Millisecond)
-				for seen < fed && time.Now().Before(grace) {
+				// (packets dropped before setDataChannel never arrive: give up after 100 ms of silence)
+				grace, idle := time.Now().Add(time.Second), time.Now().Add(100*time.Millisecond)
+				for seen < fed && time.Now().Before(grace) && time.Now().Before(idle) {
 					if n := drain(); n > 0 {
 						seen += n
+						idle = time.Now().Add(100 * time.Millisecond)
 					} else {
 						time.Sleep(100 * time.Microsecond)
 					}
